@@ -66,7 +66,7 @@ def parse_items(line):
         elif it.startswith("class "):
             m = re.match(r"class (\S+) bases=(\S+) ctor(?:attrs)?=(\S+)$", it)
             name, bs, ct = m.group(1), m.group(2), m.group(3)
-            classes[name] = ([] if bs == "-" else bs.split(","), None if ct == "none" else ([] if ct == "-" else ct.split(",")))
+            classes[name] = ([] if bs == "-" else bs.split(","), None if ct == "!" else ([] if ct == "-" else ct.split(",")))
         elif it.startswith("type "):
             n, body = it[5:].split("=", 1)
             k = body.split(":")[0]
@@ -88,6 +88,8 @@ def oracle(s, impl, spec_line):
         return (line.split()[0], f"Python cannot {'compile' if line.startswith('compile') else 'import'} the emitted module against the bundled runtime: {line[:300]}")
     _, classes, types = parse_items(line)
     _, sclasses, stypes = parse_items(spec_line)
+    w = re.search(r"\| wiring=(\S+)", line)
+    wiring = w.group(1) if w else "missing"
     by_ent = {}
     for cn in classes:
         by_ent.setdefault(unescape(cn), []).append(cn)
@@ -99,10 +101,14 @@ def oracle(s, impl, spec_line):
         bases, ctor = classes[by_ent[e.name][0]]
         want_b, want_c = sclasses[e.name]
         if [unescape(x) for x in bases] != want_b:
-            return ("bases-order", f"class {e.name}: bases {bases}, supertypes in declaration order {want_b}")
+            return ("bases-order", f"class {e.name}: bases {bases}, supertypes in declaration order {want_b}",
+                    {"entity": e.name, "got": [unescape(x) for x in bases], "want": want_b})
         got = [unescape(re.sub(r"^inherited\d+__", "", p)) for p in (ctor or [])]
         if got != want_c:
-            return ("ctor-order", f"class {e.name}: constructor takes {ctor}, Part 21 order of the explicit attributes is {want_c}")
+            return ("ctor-order", f"class {e.name}: constructor takes {ctor}, Part 21 order of the explicit attributes is {want_c}",
+                    {"entity": e.name, "got": got, "want": want_c})
+    if wiring != "ok":
+        return ("wiring", f"a constructor parameter does not reach its attribute (instantiating with one sentinel per parameter): {wiring}")
     by_type = {}
     for tn in types:
         by_type.setdefault(unescape(tn), tn)
@@ -235,6 +241,15 @@ def shrink(run, s, kind):
                         te.attrs = [x for x in te.attrs if x.name != a.name]
                     te.attrs = [x for x in te.attrs if not (x.inv and x.inv[1] == a.name)]
                 cands.append(t)
+        for e in cur.entities:
+            for a in e.attrs:
+                if a.kind in "eo" and a.typ != "INTEGER" and not any(x.inv and x.inv[1] == a.name for y in cur.entities for x in y.attrs):
+                    t = cur.copy()
+                    for te in t.entities:
+                        for x in te.attrs:
+                            if te.name == e.name and x.name == a.name:
+                                x.typ = "INTEGER"
+                    cands.append(t)
         for t in cur.types:
             if t.body[0] in ("enum", "select") and len(t.body[1]) > 1:
                 for it in t.body[1]:
@@ -263,17 +278,131 @@ def key_of(kind, s):
     return kind + ":" + ";".join(l.replace(" ", "_") for l in s.driver_lines()[1:-1])
 
 
-def report(ctx, run, results, schemas, cap=6):
-    seen_kinds = {}
+# ---- defect classes: a finding is keyed on the class, decided on the minimised schema ------------------------------
+def _ents(s):
+    return {e.name: e for e in s.entities}
+
+
+def path_counts(s, name):
+    """number of supertype paths from entity `name` to each of its ancestors"""
+    ents, cnt = _ents(s), {}
+
+    def walk(n):
+        for p in ents[n].supers:
+            if p in ents:
+                cnt[p] = cnt.get(p, 0) + 1
+                walk(p)
+    walk(name)
+    return cnt
+
+
+def chain_len(s, name):
+    ents = _ents(s)
+    return max([1 + chain_len(s, p) for p in ents[name].supers if p in ents] + [0])
+
+
+def c3_linearisable(s):
+    """does every entity's declared supertype order admit Python's C3 linearisation?"""
+    ents, memo = _ents(s), {}
+
+    def lin(n):
+        if n in memo:
+            return memo[n]
+        seqs = []
+        for p in ents[n].supers:
+            lp = lin(p)
+            if lp is None:
+                memo[n] = None
+                return None
+            seqs.append(list(lp))
+        seqs.append(list(ents[n].supers))
+        out = [n]
+        while any(seqs):
+            seqs = [q for q in seqs if q]
+            for q in seqs:
+                h = q[0]
+                if not any(h in r[1:] for r in seqs):
+                    break
+            else:
+                memo[n] = None
+                return None
+            out.append(h)
+            seqs = [[x for x in q if x != h] for q in seqs]
+        memo[n] = out
+        return out
+    return all(lin(e.name) is not None for e in s.entities)
+
+
+def is_ancestor(s, anc, n):
+    ents = _ents(s)
+    return any(p == anc or is_ancestor(s, anc, p) for p in ents[n].supers if p in ents)
+
+
+def python_order(s, supers):
+    """declaration order, a supertype that is an ancestor of another listed supertype moved behind it"""
+    rem, out = list(supers), []
+    while rem:
+        r = next((r for r in rem if not any(o != r and is_ancestor(s, r, o) for o in rem)), rem[0])
+        out.append(r); rem.remove(r)
+    return out
+
+
+def first_occurrences(l):
+    out = []
+    for x in l:
+        if x not in out:
+            out.append(x)
+    return out
+
+
+def classify(o, s):
+    """-> class key (stable across seeds and generators) or the shape key when the failure is in no known class"""
+    kind, detail = o[0], o[1]
+    extra = o[2] if len(o) > 2 else {}
+    if kind == "ctor-order" and extra:
+        shared = any(c >= 2 for c in path_counts(s, extra["entity"]).values())
+        if shared and first_occurrences(extra["got"]) == extra["want"] and len(extra["got"]) > len(extra["want"]):
+            return "ctor-order:shared-ancestor-twice"
+    if kind == "bases-order" and extra:
+        want, got = extra["want"], extra["got"]
+        if sorted(got) == sorted(want) and got == python_order(s, want):
+            # declaration order with an ancestor moved behind its listed subtype: the declared order itself is one Python refuses
+            return "bases-order:ancestor-before-descendant"
+        # the stable sort by decreasing supertype-chain length
+        srt = [n for _, _, n in sorted((-chain_len(s, n), i, n) for i, n in enumerate(want))]
+        if sorted(got) == sorted(want) and got == srt:
+            return "bases-order:not-declaration-order"
+    if kind == "import-error" and "method resolution order" in detail and not c3_linearisable(s):
+        return "import-error:no-c3-linearisation"
+    return key_of(kind, s)
+
+
+CLASSES = ("ctor-order:shared-ancestor-twice", "bases-order:not-declaration-order", "bases-order:ancestor-before-descendant",
+           "import-error:no-c3-linearisation")
+
+
+def report(ctx, run, results, schemas, cap=8):
+    """every failing schema is classified; one minimal replay per defect class, and up to `cap` for failures in no class"""
+    done, unclassified = set(), 0
     for s, (o, c, im) in zip(schemas, results):
-        if o and seen_kinds.get(o[0], 0) < 2:
-            seen_kinds[o[0]] = seen_kinds.get(o[0], 0) + 1
-            m = shrink(run, s, o[0])
-            mo = run.fails(m, o[0]) or o
-            ctx.violation(key_of(o[0], m), mo[1], {"schema": m.express(), "driver_lines": m.driver_lines(), "model": to_obj(m),
-                          "how": "run the scratch exp2python on the schema, then harness/h_pygen.py <dir> m with VERIF_REPO set; compare with `m_c18 spec`"})
-            if len(ctx.violations) >= cap:
-                return
+        if not o:
+            continue
+        k0 = classify(o, s)
+        if k0 in CLASSES and k0 in done:
+            continue
+        if k0 not in CLASSES:
+            if unclassified >= cap:
+                continue
+            unclassified += 1
+        m = shrink(run, s, o[0])
+        mo = run.fails(m, o[0]) or o
+        k = classify(mo, m)
+        if k0 in CLASSES and k != k0:
+            # the minimised schema left the class: report the unminimised one under its own key
+            m, mo, k = s, o, key_of(o[0], s)
+        done.add(k)
+        ctx.violation(k, mo[1], {"schema": m.express(), "driver_lines": m.driver_lines(), "model": to_obj(m),
+                      "how": "run the scratch exp2python on the schema, then harness/h_pygen.py <dir> m with VERIF_REPO set; compare with `m_c18 spec`"})
     if not any(o for o, _, _ in results):
         for s, (o, c, im) in zip(schemas, results):
             if c:
@@ -294,9 +423,12 @@ def batches(ctx):
     yield "corpus", cor
     yield "fixed-shapes", G.fixed_shapes()
     n = 120 if quick else 1500
-    yield "random", [G.gen(ctx.rng, idx=i) for i in range(n)]
-    yield "random-keyword-heavy", [G.gen(ctx.rng, idx=10000 + i, p_kw=0.6) for i in range(40 if quick else 400)]
-    yield "random-deep-multi", [G.gen(ctx.rng, idx=20000 + i, n_ent=ctx.rng.randrange(4, 10), p_multi=0.7, p_kw=0.05) for i in range(40 if quick else 400)]
+    yield "random", [G.gen(ctx.rng, idx=i, admissible=True) for i in range(n)]
+    yield "random-keyword-heavy", [G.gen(ctx.rng, idx=10000 + i, p_kw=0.6, admissible=True) for i in range(40 if quick else 400)]
+    yield "random-deep-multi", [G.gen(ctx.rng, idx=20000 + i, n_ent=ctx.rng.randrange(4, 10), p_multi=0.7, p_kw=0.05, admissible=True)
+                                for i in range(60 if quick else 600)]
+    yield "random-any-supertype-order", [G.gen(ctx.rng, idx=30000 + i, n_ent=ctx.rng.randrange(3, 9), p_multi=0.6, p_kw=0.05)
+                                         for i in range(40 if quick else 400)]
 
 
 def run(ctx):
@@ -337,7 +469,7 @@ def run(ctx):
     ctx.cov["rule"] = ("generated single-schema EXPRESS files: 1-9 entities with single/multiple/diamond supertypes, explicit/optional/"
                        "derived/inverse attributes typed by simple, defined, entity and aggregate types; defined types of every body kind "
                        "(simple, BOOLEAN, renamed, ENUMERATION, SELECT, 1-D aggregate); 15-60% of identifiers drawn from Python keywords/"
-                       "builtins; plus fixed shapes (diamond, shallow-before-deep, every keyword as entity/attribute/enum item/type name)")
+                       "builtins; supertype orders Python accepts in all batches but `random-any-supertype-order`; plus fixed shapes (diamond, shallow-before-deep, every keyword as entity/attribute/enum item/type name)")
 
 
 def replay(ctx, path):
